@@ -130,7 +130,11 @@ def touches (w : World) : Op → Nat → Bool
   | .srecv _, j => j == 7 || w.exits.contains (j, (w.slot j).gen) || (w.slot j).ending
   | .sstop, j => j == 7 || w.exits.contains (j, (w.slot j).gen) || (w.slot j).ending
   | .teardown, _ => true
+  | .passdown, _ => true
   | _, _ => false
+
+/-- disconnects carried out (`TcpServer::disconnect` of a session's client) -/
+def countClosed (evs : List Ev) : Nat := (evs.filter (· = .closed)).length
 
 /-! ### SplitCmdline -/
 
